@@ -16,6 +16,18 @@ for path in conf:
     elif path.endswith("targets.go") or path.endswith(".gitignore"):
         s = open(path).read()
         s = re.sub(r"<<<<<<< [^\n]*\n(.*?)=======\n(.*?)>>>>>>> [^\n]*\n", lambda m: m.group(1) + m.group(2), s, flags=re.S)
+        if path.endswith("targets.go"):
+            m = re.search(r"var targetFile = map\[string\]string\{\n(.*?)\n\}\n", s, flags=re.S)
+            if m:
+                seen, out = set(), []
+                for l in m.group(1).split("\n"):
+                    k = re.match(r'\s*"([^"]+)":', l)
+                    if k:
+                        if k.group(1) in seen:
+                            continue
+                        seen.add(k.group(1))
+                    out.append(l)
+                s = s[:m.start(1)] + "\n".join(out) + s[m.end(1):]
         open(path, "w").write(s)
     else:
         print("UNRESOLVED:", path); continue
